@@ -11,6 +11,7 @@ import (
 	"strings"
 	"testing"
 	"testing/synctest"
+	"time"
 
 	"github.com/Shopify/sarama"
 	metrics "github.com/rcrowley/go-metrics"
@@ -113,7 +114,38 @@ func runCase(t *testing.T, cs *Case) *Obs {
 				cl.closeAll()
 				return
 			}
+			var released chan struct{}
+			if len(cs.Order) > 0 {
+				released = make(chan struct{})
+				cl.mu.Lock()
+				cl.gates, cl.parked = map[int32]chan struct{}{}, map[int32]bool{}
+				for _, id := range cs.Order {
+					cl.gates[id] = make(chan struct{})
+				}
+				cl.mu.Unlock()
+				go func() {
+					defer close(released)
+					for _, id := range cs.Order {
+						// wait until this broker holds its answer (or, if the operation never asks it, for two seconds of fake time)
+						for i := 0; i < 2000; i++ {
+							synctest.Wait()
+							cl.mu.Lock()
+							p := cl.parked[id]
+							cl.mu.Unlock()
+							if p {
+								break
+							}
+							time.Sleep(time.Millisecond)
+						}
+						close(cl.gates[id])
+						synctest.Wait() // whoever waited for this answer has run as far as it can before the next one is released
+					}
+				}()
+			}
 			o.Err = invoke(admin, cs, o)
+			if released != nil {
+				<-released
+			}
 			_ = admin.Close()
 			cl.closeAll()
 			synctest.Wait()
@@ -183,6 +215,12 @@ func invoke(admin sarama.ClusterAdmin, cs *Case, o *Obs) error {
 		return err
 	case "DeleteConsumerGroup":
 		return admin.DeleteConsumerGroup(groupName(0))
+	case "ListConsumerGroups":
+		r, err := admin.ListConsumerGroups()
+		for g := range r {
+			o.ItemsBack = append(o.ItemsBack, g)
+		}
+		return err
 	case "DescribeLogDirs":
 		r, err := admin.DescribeLogDirs(cs.Spread)
 		for id, dirs := range r {
@@ -472,6 +510,10 @@ func expectedPerBroker(cs *Case) map[int32][]string {
 		for _, b := range cs.Spread {
 			m[b] = []string{fmt.Sprintf("broker=%d", b)}
 		}
+	case "ListConsumerGroups":
+		for b := 1; b <= cs.NB; b++ {
+			m[int32(b)] = []string{"all-groups"}
+		}
 	}
 	for _, v := range m {
 		sort.Strings(v)
@@ -588,6 +630,10 @@ func judgeLead(cs *Case, o *Obs) (fs []Finding) {
 		case "DescribeLogDirs":
 			for _, b := range cs.Spread {
 				wantBack = append(wantBack, fmt.Sprintf("broker=%d", b))
+			}
+		case "ListConsumerGroups":
+			for b := 1; b <= cs.NB; b++ {
+				wantBack = append(wantBack, fmt.Sprintf("grp-b%d", b))
 			}
 		}
 		got := append([]string(nil), o.ItemsBack...)
